@@ -175,7 +175,8 @@ MANIFEST_TEXT = {
              "Hypotheses the proof forces: device indices inside the plan and at most 128 channels (beyond that ChMaskCntl > 7 is not encodable - recorded in DESIGN.md, outside the property's bounded custom channels).",
         technique="Lean 4 proof (refinement: blocks emitted + pointwise effect of apply, induction over lists) + differential correspondence"),
     "C15": dict(
-        text="Lean theorems about the channel-plan state machine for all states / all integer arguments (see LW/Props/C15.lean) and differential runs of random histories with full observation; spec verdicts on the Go observations: "
+        text="Lean theorems about the channel-plan state machine for all states / all integer arguments: C15_inv_reachable (invariant over every history), C15_partition_enabled / _custom, C15_lookup_freq / _freq_dr, C15_nopanic, "
+             "C15_cflist_channels (only custom channels, five entries), C15_cflist_masks (bit i of mask j is set iff channel 16j+i is enabled), C15_cflist_encodable_partial + C15_ism2400_witness; differential runs of random histories with full observation; spec verdicts on the Go observations: "
              "partitions, unaltered standard channels, lookups return matching channels, CFList content and MAC-layer encodability.",
         note="Trusted: hook, model. Known finding (recorded, not repaired): ISM2400 frequencies are not encodable in CFList / 24-bit frequency MAC commands. Two genuine defects repaired (negative index panics).",
         technique="Lean 4 proof (invariants over all op histories) + differential correspondence"),
